@@ -29,7 +29,19 @@ def gen_base_scenario(seed, tier="quick"):
     opts = {"natural_fault_prob": 1.0 if natural else 0.0,
             "nr_max": 24 if tier == "thorough" else 16,
             "nrho_max": 12 if tier == "thorough" else 8}
-    if rng.random() < 0.22:
+    big = (not natural) and rng.random() < 0.04
+    if big:
+        # large-table sub-batch: output sizes from tens of KB to several MB, so that behaviour which
+        # depends on how much has been buffered (flush thresholds, chunking) is reached as well
+        import math
+        lo = 1500 if rng.random() < 0.3 else 6000
+        opts["nr_fixed"] = int(math.exp(rng.uniform(math.log(lo), math.log(40000))))
+        opts["nrho_fixed"] = int(math.exp(rng.uniform(math.log(lo), math.log(40000))))
+        opts["min_species"] = 2
+        opts["targets"] = [t for t in mg.ALL_TARGETS if t not in mg.BINARY_TARGETS]
+        opts["max_species"] = 3
+        opts["underspecified_prob"] = 0.0
+    if rng.random() < 0.22 and not big:
         from . import apimodel
         spec = apimodel.gen_api_model(rng, natural=natural, tier=tier)
         return {"property": PROP, "seed": seed, "tier": tier, "potsim": 1, "model": spec, "route": "api",
@@ -62,6 +74,8 @@ def gen_base_scenario(seed, tier="quick"):
           "attempts": [{"k": None}]}
     if route == "cli":
         sc["shared_fp"] = False
+    if big:
+        sc["big"] = True
     return sc
 
 
@@ -90,6 +104,13 @@ def plan_for_k(base, k, N):
 def choose_ks(base, N, roles, tier, rng):
     if N <= 0:
         return []
+    if base.get("big"):
+        # too many evaluations to sweep: last, next-to-last, first, block boundaries near the end and a few late points
+        ks = {1, N, max(1, N - 1), rng.randint(max(1, N // 2), N), rng.randint(max(1, (9 * N) // 10), N)}
+        bnd = [i for i in range(1, N) if roles[i] != roles[i - 1]]
+        for i in bnd[-2:]:
+            ks.update([i, i + 1])
+        return sorted(ks)[:8] if tier == "quick" else sorted(ks)
     if tier == "thorough":
         return list(range(1, N + 1))
     ks = {1, N}
@@ -536,6 +557,10 @@ def run_job(job):
     bump("models")
     bump("target=" + meta["target"])
     bump("route=" + base["route"])
+    if base.get("big"):
+        bump("probe:large-table-model")
+        if ref.get("attempts"):
+            bump("large-table-bytes-total", ref["attempts"][0].get("delta_len", 0))
     if ref.get("build_error"):
         bump("invalid-model-build-error")
         st["invalid"] = ref["build_error"]
@@ -854,7 +879,7 @@ COMPONENTS = {
                   "sys.argv / stdout / stderr of potable", "evaluation failures (EvalPoint wrappers on the model functions)"],
     "stubbed": [],
 }
-EXPECTED_PROBES = ["fault-at-first-evaluation", "fault-at-last-evaluation", "fault-at-block-boundary", "fault-in-derivative-evaluation",
+EXPECTED_PROBES = ["large-table-model", "fault-at-first-evaluation", "fault-at-last-evaluation", "fault-at-block-boundary", "fault-in-derivative-evaluation",
                    "fault-while-reading-workbook", "retry-after-failed-attempt", "retry-after-failed-excel-write", "shared-fp-across-attempts"]
 WALL_CAP = {"quick": 240.0, "thorough": 3300.0}
 STATE_MEASURE = "distinct (target or writer, route, site of the failing function, position class first/last/block-boundary/interior, attempt index within the retry plan, via .workbook or write) combinations in which a fault fired"
